@@ -12,4 +12,5 @@ if ! go build -race -gcflags=all=-d=checkptr=0 -tags verif -o "$w/bin-race" ./ha
   cat "$w/build2.log" >&2; echo "TOOL-ERROR: race build failed" >&2; exit 2
 fi
 [ "${1:-}" = "--warm" ] && exit 0
+{ flock -u 9 && exec 9>&-; } 2>/dev/null  # the build is done: release the shared lock on /repo's working tree (.work/repo.lock)
 VERIF_C13_RACE="$w/bin-race" exec "$w/bin" "$@"
